@@ -211,8 +211,13 @@ def check_once(rec, case, ds, truth, fp):
     if edge_face is not None and 'edge_face' not in supplied and face_edge is not None:
         count = len(edge_face)
         ok = True
+        faces_of_edge: dict = {}
+        for f, row in enumerate(face_edge):
+            for v in row:
+                if v is not None:
+                    faces_of_edge.setdefault(v, set()).add(f)
         for e in range(count):
-            want = {f for f, row in enumerate(face_edge) if e in [v for v in row if v is not None]}
+            want = faces_of_edge.get(e, set())
             got = [v for v in edge_face[e] if v is not None]
             if set(got) != want or len(got) != len(want):
                 ok = False
@@ -221,9 +226,16 @@ def check_once(rec, case, ds, truth, fp):
                   'faces containing the edge', edge_face[:4])
     if face_face is not None and 'face_face' not in supplied:
         ok = len(face_face) == nface
+        faces_of_pair: dict = {}
+        for f, pairs in enumerate(pairs_of_face):
+            for pair in pairs:
+                faces_of_pair.setdefault(pair, set()).add(f)
         adjacency = []
         for f in range(nface):
-            want = {g for g in range(nface) if g != f and set(pairs_of_face[f]) & set(pairs_of_face[g])}
+            want = set()
+            for pair in pairs_of_face[f]:
+                want |= faces_of_pair[pair]
+            want.discard(f)
             adjacency.append(want)
         for f, row in enumerate(face_face if ok else []):
             got = [v for v in row if v is not None]
